@@ -265,7 +265,7 @@ func c37(r *simk.Run) *simk.Violation {
 					tips = append(tips, b)
 				}
 			}
-			switch c.Weighted(4, 3, 4, 3) {
+			switch c.Weighted(4, 4, 4, 2) {
 			case 0: // a node builds and certifies a chunk
 				p := c.Intn(nNodes)
 				// signers only sign an expiry inside [their accepted timestamp, that + window]
@@ -292,10 +292,20 @@ func c37(r *simk.Run) *simk.Violation {
 					note("chunk by node %d exp %d", p, exp)
 				}
 				refreshCerts()
-			case 1: // honest proposal
+			case 1: // honest proposal (mostly on the deepest processing tip: chains of undecided blocks grow)
 				b := c.Intn(nNodes)
 				p := tips[c.Intn(len(tips))]
+				if c.Bool(0.6) {
+					for _, t := range tips {
+						if t.blk.Height > p.blk.Height {
+							p = t
+						}
+					}
+				}
 				ts := p.blk.Timestamp + 1 + int64(c.Intn(int(window)/2+2))
+				if c.Bool(0.6) {
+					ts = p.blk.Timestamp + 1 + int64(c.Intn(2)) // slow clock: certificates stay valid over several blocks
+				}
 				blk, err := nodes[b].Node.BuildBlock(ctx, p.blk, ts)
 				if err != nil {
 					note("node %d builds on %s at %d: %v", b, p.name, ts, err)
